@@ -2,41 +2,55 @@ import MemVerif.Lemmas.C06
 /-!
 # C06 — unwinding a memory stack restores exactly the state at the marker
 
-Model: `MemVerif.Model.MemStack` (Stack.lean), histories `SOp` with nested scopes (StackRun.lean).
-All statements quantify over every configuration `cfg`, every upstream environment `e`, every reachable
-(`Inv`) state and every well-formed history, with no bound on length or nesting.
+Model: `MemVerif.Model.MemStack` (Stack.lean), histories `SOp` with nested marker scopes (StackRun.lean):
+`scope ops` is `m := top(); ops; unwind(m)`. All statements quantify over every configuration `cfg` (fences,
+assertions, pointer checks on or off), every upstream environment `e`, every reachable (`Inv`) state and every
+history, with no bound on length or nesting depth.
+
+Hypotheses that appear below and why (each was *forced* by the proof; the counterexamples are machine-checked in
+`Lemmas/C06Cex.lean`):
+* `hsrc` — the block source is not `static_block_allocator`: the model's `acquired` list is built from upstream
+  events, which a static source does not emit (`scope_restores_counterexample`). Static sources are covered by
+  the correspondence check only.
+* `hlen` — fewer than 2^64 blocks exist: `unwind` computes the number of blocks to pop in `size_t`
+  (`wrap_counterexample`; needs an upstream that hands out the same block 2^64 times).
 -/
 namespace MemVerif.Props.C06
 open MemVerif.Model
 
-/-- **Unwind restores.** Running any well-formed history inside a marker scope and unwinding gives back the
-top pointer and the used blocks of the state at the marker; the blocks acquired meanwhile are kept in the
-cache behind the previously cached ones; no pointer check / assertion fires; the invariant is kept. -/
+/-- **Unwind restores.** Running any history inside a marker scope and unwinding gives back the top pointer and the
+used blocks of the state at the marker; the blocks acquired meanwhile are kept in the cache behind the previously
+cached ones; no pointer check / assertion fires (`ok`); the leak counter and the invariant are kept. -/
 theorem C06_unwind_restores (cfg : Cfg) (e : EnvS) (s : MemStack) (hs : s.Inv) (k : Nat) (ops : List SOp)
-    (hw : SOpsWf ops) (hf : cfg.fence ≤ 2 ^ 16) (hacq : ∀ b ∈ (runOp cfg e s k (.scope ops)).acquired, b.Wf) :
+    (hacq : ∀ b ∈ (runOp cfg e s k (.scope ops)).acquired, b.Wf)
+    (hsrc : ∀ c en b, s.arena.src ≠ .static_ c en b)
+    (hlen : s.arena.used.length + s.arena.cached.length + (runOp cfg e s k (.scope ops)).acquired.length < 2 ^ 64) :
     let r := runOp cfg e s k (.scope ops)
     r.ok = true ∧ r.st.cur = s.cur ∧ r.st.arena.used = s.arena.used ∧
       r.st.arena.cached = s.arena.cached ++ r.acquired ∧ r.st.leak = s.leak ∧ r.st.Inv :=
-  scope_restores cfg e s hs k ops hw hf hacq
+  scope_restores' cfg e s hs k ops hacq hsrc hlen
 
 /-- **Capacity restored** (corollary): `capacity_left` after the scope equals `capacity_left` at the marker. -/
 theorem C06_capacity_restored (cfg : Cfg) (e : EnvS) (s : MemStack) (hs : s.Inv) (k : Nat) (ops : List SOp)
-    (hw : SOpsWf ops) (hf : cfg.fence ≤ 2 ^ 16) (hacq : ∀ b ∈ (runOp cfg e s k (.scope ops)).acquired, b.Wf) :
+    (hacq : ∀ b ∈ (runOp cfg e s k (.scope ops)).acquired, b.Wf)
+    (hsrc : ∀ c en b, s.arena.src ≠ .static_ c en b)
+    (hlen : s.arena.used.length + s.arena.cached.length + (runOp cfg e s k (.scope ops)).acquired.length < 2 ^ 64) :
     (runOp cfg e s k (.scope ops)).st.capacityLeft = s.capacityLeft := by
-  have h := scope_restores cfg e s hs k ops hw hf hacq
+  have h := scope_restores' cfg e s hs k ops hacq hsrc hlen
   simp only at h
   obtain ⟨_, h1, h2, _⟩ := h
   unfold MemStack.capacityLeft MemStack.blockEnd Arena.currentBlock
   rw [h1, h2]
 
 /-- **Replay.** After the scope, the same requests yield the same results (addresses) as the first time,
-served entirely from the block cache — provided the first run saw no upstream failure. -/
+served entirely from the block cache (nothing is acquired) — provided the first run saw no upstream failure. -/
 theorem C06_replay_same_addresses (cfg : Cfg) (e e' : EnvS) (s : MemStack) (hs : s.Inv) (k k' : Nat)
-    (ops : List SOp) (hw : SOpsWf ops) (hf : cfg.fence ≤ 2 ^ 16) (hacq : ∀ b ∈ (runOps cfg e s k ops).acquired, b.Wf)
-    (hnofail : ∀ o ∈ (runOps cfg e s k ops).outs, o ≠ .throws .upstream) :
+    (ops : List SOp) (hnofail : ∀ o ∈ (runOps cfg e s k ops).outs, o ≠ .throws .upstream)
+    (hsrc : ∀ c en b, s.arena.src ≠ .static_ c en b)
+    (hlen : s.arena.used.length + s.arena.cached.length + (runOps cfg e s k ops).acquired.length < 2 ^ 64) :
     let u := (runOp cfg e s k (.scope ops)).st
     (runOps cfg e' u k' ops).outs = (runOps cfg e s k ops).outs ∧ (runOps cfg e' u k' ops).acquired = [] :=
-  replay_same cfg e e' s hs k k' ops hw hf hacq hnofail
+  replay_same' cfg e e' s hs k k' ops hnofail hsrc hlen
 
 /-- **Unwinding never talks to the block source**: blocks are kept for reuse until `shrink_to_fit`. -/
 theorem C06_unwind_no_upstream (cfg : Cfg) (s : MemStack) (m : Marker) (hc : s.arena.isCached = true) :
@@ -49,11 +63,40 @@ theorem C06_marker_order (a b c : Marker) :
       (a.lt b = true ∨ b.lt a = true ∨ (a.index = b.index ∧ a.top = b.top)) :=
   marker_order a b c
 
-/-- **Marker order agrees with allocation order**: a marker taken later (after any history without leaving the
-scope) is never below an earlier one. -/
+/-- **Marker order agrees with allocation order**: a marker taken later (after any history, nested scopes
+included) is never below an earlier one. -/
 theorem C06_marker_monotone (cfg : Cfg) (e : EnvS) (s : MemStack) (hs : s.Inv) (k : Nat) (ops : List SOp)
     (hw : SOpsWf ops) (hf : cfg.fence ≤ 2 ^ 16) (hacq : ∀ b ∈ (runOps cfg e s k ops).acquired, b.Wf) (m m' : Marker)
     (hm : s.top = some m) (hm' : (runOps cfg e s k ops).st.top = some m') : m.le m' = true :=
   marker_monotone cfg e s hs k ops hw hf hacq m m' hm hm'
+
+/-- The hypotheses of `C06_unwind_restores` cannot simply be dropped: refutations of the statement without `hsrc`
+(static source) and without `hlen` (2^64 blocks). -/
+theorem C06_hypotheses_needed :
+    (∃ (cfg : Cfg) (e : EnvS) (s : MemStack) (k : Nat) (ops : List SOp),
+      s.Inv ∧ SOpsWf ops ∧ cfg.fence ≤ 2 ^ 16 ∧ (∀ b ∈ (runOp cfg e s k (.scope ops)).acquired, b.Wf) ∧
+      (runOp cfg e s k (.scope ops)).st.arena.cached ≠ s.arena.cached ++ (runOp cfg e s k (.scope ops)).acquired) ∧
+    (∃ (cfg : Cfg) (e e' : EnvS) (s : MemStack) (k k' : Nat) (ops : List SOp),
+      s.Inv ∧ SOpsWf ops ∧ cfg.fence ≤ 2 ^ 16 ∧ (∀ b ∈ (runOps cfg e s k ops).acquired, b.Wf) ∧
+      (∀ b ∈ (runOp cfg e s k (.scope ops)).acquired, b.Wf) ∧
+      (∀ o ∈ (runOps cfg e s k ops).outs, o ≠ .throws .upstream) ∧
+      (runOp cfg e s k (.scope ops)).st.arena.used ≠ s.arena.used ∧
+      (runOps cfg e' (runOp cfg e s k (.scope ops)).st k' ops).outs ≠ (runOps cfg e s k ops).outs) :=
+  ⟨scope_restores_counterexample, wrap_counterexample⟩
+
+/-- non-vacuity: a fresh stack over a growing source on a 4096-byte block satisfies `Inv` and the side conditions -/
+example : let s : MemStack := { arena := { src := .growing 2 1 8192, isCached := true, used := [⟨1048576, 4096⟩] }, cur := 1048592 }
+    s.Inv ∧ ∀ c en b, s.arena.src ≠ .static_ c en b := by
+  intro s
+  refine ⟨⟨by decide, rfl, ?_, ?_, ?_⟩, by intro c en b h; cases h⟩
+  · intro b hb
+    simp only [s, List.mem_singleton] at hb
+    subst hb
+    exact ⟨by decide, by decide, by decide⟩
+  · intro b hb; cases hb
+  · intro b hb
+    simp only [s, List.head?_cons, Option.some.injEq] at hb
+    subst hb
+    exact ⟨by decide, by decide⟩
 
 end MemVerif.Props.C06
